@@ -43,6 +43,26 @@ strategy order/subset, while these monitors observe the returned objects:
                        later call on the same instance / loop is judged as usual;
  (k) reads           — half of the sessions are replayed with get_statistics / reset_statistics / repr / attribute reads
                        interleaved anywhere: the two runs must report the same thing step by step.
+
+Round 4 additions:
+ (d') converse of (d) — a fold that fold_enhanced attributes to STRICT, and any valid fold under a list naming only STRICT, is a fold of
+                       text that (outer white space aside) IS schema-valid JSON, with exactly model_validate(json.loads(text));
+ (l) lifecycle       — one instance whose public settings are ASSIGNED after construction (strategies as a new list / tuple, sealed to
+                       [STRICT], widened; on_misfold assigned / replaced by a falsy callable / by one that raises / withdrawn; silent and
+                       max_retries set to values of other types; co_chaperones replaced), that is duplicated by copy / deepcopy / pickle
+                       and used through the duplicate while the original is re-configured, called positionally / by keyword / with a
+                       tuple, whose results are deep-copied and mapped (FoldedProtein.map), and that is handed to a healing loop driven
+                       by the library's own mock generator (bool / Fraction settings, loop fields re-assigned between runs). Every step
+                       is judged by (a)-(d') under the CURRENT settings;
+ (m) churn           — a few cases create hundreds of short-lived, equal-length texts and uncached schema classes of alternating field
+                       types, drop them and force collections in between (address reuse), judged by (a)-(d') and by what the text spells;
+ (n) interpreter mode — one child interpreter started with -O folds a fixed probe list (rv/c11_probe.py); its records must equal this
+                       interpreter's and keep the refusal obligations; an inventory of the anchored classes' public names against the
+                       names the workload uses is reported as informational counters;
+ workload            — fence labels / tag names spelled in upper or mixed case or naming another language, around flat and nested
+                       payloads; texts that are JSON only as a whole (brace / bracket fragments inside string values) with and without
+                       the type swaps of the coercion table; field and class names full of format / regex metacharacters; user hooks
+                       and schema validators raising KeyError / TypeError / TimeoutError / AssertionError / ValueError, not only one type.
 """
 import contextlib
 import json
@@ -66,12 +86,18 @@ TECHNIQUE = ("runtime monitoring: real fold()/fold_enhanced()/heal() on generate
              "every case dressed with environment/configuration that must not matter (verbose mode into a strict UTF-8 sink, hostile "
              "virtual clock, degenerate option values, decorated / frozen / raising-validator schema variants, equal-but-distinct text objects); "
              "raising user hooks (on_misfold, preprocessor, generator) with the state afterwards judged; session replay with read-only / "
-             "maintenance calls interleaved (differential); > 20 000-operation histories on long-lived instances")
+             "maintenance calls interleaved (differential); > 20 000-operation histories on long-lived instances; "
+             "lifecycle sessions (public settings assigned mid-life, copy/deepcopy/pickle duplicates, keyword / tuple calling conventions, "
+             "FoldedProtein.map, the library's mock healing generator) judged under the current settings; churn of short-lived texts and "
+             "schema classes with forced collections; a python -O child probe compared record by record; independent whole-document oracle "
+             "for everything attributed to STRICT")
 RULE = ("cases = fixed witness raws x all 64 strategy orders, then seeded random (schema, instance, semantic swap, writer style, "
         "wrapper, order), a share of them continued as a healing-loop run, as a multi-fold session on one instance or as a neighbour session "
         "(several instances, one of them configured); non-trivial = the raw is strict-valid JSON for the schema, or it is not and the fold is valid; "
         "distinct = (schema shape, corruption labels, strategy used, valid); plus one (quick) or two (thorough) long-history cases of "
-        "26 000-70 000 operations on two long-lived instances")
+        "26 000-70 000 operations on two long-lived instances, one (quick) or three (thorough) churn cases of 200-500 short-lived "
+        "texts / schema classes, and a parent-side probe of 54 fold pairs in a python -O child; 3 % of the random cases are "
+        "whole-document texts (flat schema, brace fragments in strings, coercion-table swaps), 4 % continue as a lifecycle session")
 ASSUMPTIONS = [
     "schemas are plain pydantic field models (0-15 fields: int/float/str/bool/list/Optional/one nested model), no aliases or extra='forbid'; "
     "decorated variants add descriptions/titles/a docstring, frozen=True, or a field validator that returns every value unchanged and "
@@ -85,7 +111,11 @@ ASSUMPTIONS = [
     "are run, counted and not judged); a preprocessor given to ANOTHER instance, or to the same instance for ANOTHER schema class, or registered "
     "earlier and since replaced / removed, is part of the workload",
     "an instance's public `strategies` list may be edited in place by its owner; the list handed to a constructor is not shared by the check between instances",
-    "strategy lists are non-empty lists of FoldingStrategy members (an empty list means 'default' in the API)",
+    "strategy lists are non-empty lists or tuples of FoldingStrategy members (an empty list means 'default' in the API); one-shot iterators "
+    "are outside the declared parameter type and not used",
+    "a fold 'by the strict strategy' means: the text, outer white space (str.strip) aside, parsed as one JSON document and validated",
+    "duplicates of an instance (copy / deepcopy / pickle) owe what the original owes under the settings they were copied with; where "
+    "pickling is impossible (a lambda callback, a generated class as registry key) the step is skipped",
     "non-finite floats only occur in top-level fields of generated instances",
     "pydantic lax-mode validation defines 'instance of the schema' (the library validates with model_validate)",
     "healing loop: max_retries >= 0 and confidence_decay >= 0 (a negative decay is not a discount); the generator does not raise",
@@ -101,6 +131,10 @@ COERCE3 = (("age", "int", 0), ("price", "float", 0), ("ok", "bool", 0), ("tags",
 EMPTY = ()
 MANY = tuple(("f%d" % i, "bool", 0) for i in range(10)) + (("n0", "str", 1), ("n1", "str", 1))
 NUMS = (("tags", "list_int", 0), ("ratio", "float", 0), ("name", "str", 2))
+ITEM_S = (("name", "str", 0), ("price", "str", 0), ("tags", "str", 2))       # ITEM's field names, every value a string
+OPT_S = (("note", "str", 1), ("ok", "str", 2))
+ODDKEYS = (("a.b*", "int", 0), ("x%sy{0}", "str", 0), ("k\n(", "bool", 2))
+_N1 = {"inner": {"x": 1}, "title": "t"}
 _MANY_V = dict([("f%d" % i, i % 3 != 0) for i in range(10)] + [("n0", None), ("n1", None)])
 HI, LO = "\ud83d", "\udc80"       # a high surrogate left by a cut emoji; what errors="surrogateescape" gives for byte 0x80
 
@@ -223,6 +257,34 @@ FIXED = [
     (MANY, "{" + ", ".join('"%s": %s' % (k, "undefined" if v is None else json.dumps(v)) for k, v in _MANY_V.items()) + "}", _MANY_V),
     (MANY, json.dumps({k: (str(v).lower() if isinstance(v, bool) else v) for k, v in _MANY_V.items()}),
      {k: (str(v).lower() if isinstance(v, bool) else v) for k, v in _MANY_V.items()}),
+    # fences / tags whose label is spelled differently (upper / mixed case, another language), around flat and nested payloads
+    (NEST, '```JSON\n{"inner": {"x": 1}, "title": "t"}\n```', _N1),
+    (NEST, 'Here you go:\n```Json\n{"inner": {"x": 1}, "title": "t"}\n```\nDone.', _N1),
+    (NEST, 'Result: <JSON>{"inner": {"x": 1}, "title": "t"}</JSON> thanks', _N1),
+    (NEST, '```json\n{"inner": {"x": 1}, "title": "t"}\n```', _N1),
+    (NEST, '```javascript\n{"inner": {"x": 1}, "title": "t"}\n```', _N1),
+    (NEST, '~~~json\n{"inner": {"x": 1}, "title": "t"}\n~~~', _N1),
+    (NEST, '<Json>\n{"inner": {"x": "1"}, "title": 5}\n</Json>', {"inner": {"x": "1"}, "title": 5}),
+    (PERSON, '```JSON\n{"name": "Bob", "age": 25}\n```', _P("Bob", 25)),
+    (PERSON, '<JSON>{"name": "Bob", "age": "25"}</JSON>', _P("Bob", "25")),
+    (ITEM, "```Json\n{'name': 'w', 'price': 1.5, 'tags': ['a'],}\n```", {"name": "w", "price": 1.5, "tags": ["a"]}),
+    # documents that are JSON only as a whole (a brace / bracket inside a string value defeats the search for an embedded object),
+    # clean or in need of the coercion table
+    (ITEM, '{"name": "set {a} or b}", "price": "9.5", "tags": "x, y"}', {"name": "set {a} or b}", "price": "9.5", "tags": "x, y"}),
+    (ITEM, '{"name": "x}y", "price": 2.5, "tags": "a, b"}', {"name": "x}y", "price": 2.5, "tags": "a, b"}),
+    (ITEM, '{"name": "x}y", "price": 2.5}', {"name": "x}y", "price": 2.5}),
+    (ITEM_S, '{"name": "set {a} or b}", "price": "9.5", "tags": "x, y"}', {"name": "set {a} or b}", "price": "9.5", "tags": "x, y"}),
+    (ITEM_S, '{"name": "x}y", "price": 2.5, "tags": "a, b"}', {"name": "x}y", "price": 2.5, "tags": "a, b"}),
+    (OPT, '{"note": "use {x", "ok": "yes"}', {"note": "use {x", "ok": "yes"}),
+    (OPT, '{"note": "end} [", "ok": "no"}', {"note": "end} [", "ok": "no"}),
+    (OPT_S, '{"note": "use {x", "ok": "yes"}', {"note": "use {x", "ok": "yes"}),
+    (PERSON, ' {"name": "}{", "age": "42"}\n', _P("}{", "42")),
+    (PERSON, '{"name": 7.5, "age": "1", "z": "]"}', {"name": 7.5, "age": "1", "z": "]"}),
+    (COERCE3, '{"age": "4", "price": "2.5", "ok": "yes", "tags": "1, 2", "name": 5, "why": "{"}', None),
+    # field names that are hostile to string formatting / regular expressions
+    (ODDKEYS, '{"a.b*": 4, "x%sy{0}": "v", "k\\n(": true}', {"a.b*": 4, "x%sy{0}": "v", "k\n(": True}),
+    (ODDKEYS, '{"a.b*": "4", "x%sy{0}": 5, "k\\n(": "yes"}', {"a.b*": "4", "x%sy{0}": 5, "k\n(": "yes"}),
+    (ODDKEYS, "Sure: {'a.b*': 4, 'x%sy{0}': 'v',}", {"a.b*": 4, "x%sy{0}": "v"}),
 ]
 
 
@@ -262,6 +324,34 @@ def _lib(fn):
 
 class Boom(Exception):
     """Raised by the check's own callbacks / generators / preprocessors (a user hook that fails)."""
+
+
+class BoomKey(Boom, KeyError):
+    pass
+
+
+class BoomType(Boom, TypeError):
+    pass
+
+
+class BoomTimeout(Boom, TimeoutError):
+    pass
+
+
+class BoomAssert(Boom, AssertionError):
+    pass
+
+
+class BoomValue(Boom, ValueError):
+    pass
+
+
+BOOMS = (Boom, BoomKey, BoomType, BoomTimeout, BoomAssert, BoomValue)     # what a failing user hook raises: the usual types
+
+
+def _boom(i, msg):
+    """The i-th kind of hook failure (chosen by the caller from data of the case, not from a random stream)."""
+    return BOOMS[i % len(BOOMS)](msg)
 
 
 def _is_boom(e):
@@ -415,6 +505,19 @@ def plan(tier):
                 "long_histories": 1, "long_history_ops": 20000, "long_history_distinct_texts": 20000,
                 "long_history_refolds_after_19000_newer_texts": 20, "long_history_closing_witnesses": 20,
                 "long_history_strict_valid_ops": 1500, "long_history_ops_fully_assessed": 120,
+                # round 4: converse of the strict clause, label spellings, whole-document texts, lifecycle of an instance, churn, -O
+                "strict_attributed_folds_checked": 3000, "strict_only_lists_checked": 150,
+                "op:fence_label_variant": 300, "op:tag_name_variant": 300, "op:whole_document": 300,
+                "lenient_valid_document_with_brace_in_string": 600, "lenient_coerced_document_with_brace_in_string": 500,
+                "lifecycle_sessions": 500, "lifecycle_judged_folds": 3000, "lifecycle_strategies_assigned": 500,
+                "lifecycle_sealed_to_strict": 200, "lifecycle_judged_while_sealed": 300,
+                "lifecycle_on_misfold_assigned:new": 80, "lifecycle_on_misfold_assigned:falsy": 80, "lifecycle_on_misfold_assigned:raising": 80,
+                "lifecycle_on_misfold_assigned:withdrawn": 80, "lifecycle_callback_raised_steps": 80,
+                "lifecycle_silent_assigned": 200, "lifecycle_max_retries_assigned": 200, "lifecycle_co_chaperones_assigned": 200,
+                "lifecycle_duplicated:copy": 120, "lifecycle_duplicated:deepcopy": 120, "lifecycle_duplicated:pickle": 80,
+                "lifecycle_calls:keyword": 2000, "lifecycle_calls:mixed": 2000, "lifecycle_results_deepcopied": 800,
+                "map_of_valid_result": 50, "mock_heal_runs": 150, "mock_heal_valid": 80,
+                "churn_rounds": 40, "churn_collections": 10, "optimized_probe_records": 10,
                 "stats:attempts:strict": 10000, "stats:attempts:extraction": 10000,
                 "stats:attempts:lenient": 10000, "stats:attempts:repair": 10000,
             }}
@@ -448,6 +551,11 @@ def long_cases(tier):
     return {N_SWEEP: 26000} if tier == "quick" else {N_SWEEP: 70000, N_SWEEP + 1: 45000}
 
 
+def churn_cases(tier):
+    """Cases that are a churn of short-lived texts and schema classes (address reuse); on other shards than the long histories."""
+    return {N_SWEEP + 3: 200} if tier == "quick" else {N_SWEEP + 3: 500, N_SWEEP + 5: 500, N_SWEEP + 6: 300}
+
+
 def run_case(ctx, n):
     _SINK.strict = False
     if n in long_cases(ctx.tier):
@@ -455,6 +563,9 @@ def run_case(ctx, n):
             long_history(ctx, n, long_cases(ctx.tier)[n])
         ctx.count("reach:verbose_chars_printed", _SINK.chars)
         _SINK.chars = 0
+        return
+    if n in churn_cases(ctx.tier):
+        churn(ctx, n, churn_cases(ctx.tier)[n])
         return
     try:
         _run_case(ctx, n)
@@ -477,9 +588,19 @@ def _run_case(ctx, n):
         case = {"kind": "fixed", "item": n // 64, "shape": shape, "raw": raw, "ground": grounds,
                 "order": order, "labels": ("fixed%d" % (n // 64),), "via_ctor": n % 2 == 0, "heal": (n % 64) in (0, 15, 40),
                 "session": (n % 64) in (3, 27, 52) and len(raw) < 2000, "related": related,
-                "neighbour": ctx.rng("neighbour", n) if (n % 64) in (5, 33) and len(raw) < 2000 else None}
+                "neighbour": ctx.rng("neighbour", n) if (n % 64) in (5, 33) and len(raw) < 2000 else None,
+                "lifecycle": ctx.rng("lifecycle", n) if (n % 64) in (7, 44) and len(raw) < 2000 else None}
         return judge(ctx, dress(ctx, case, n), ctx.rng(n))
     rng = ctx.rng(n)
+    r4 = ctx.rng("r4", n)            # its own stream: label spellings of wrappers, the whole-document family, lifecycle sessions
+    if r4.random() < 0.03:
+        w = ctx.rng("whole", n)
+        shape, raw, grounds, labels, related = G.whole_document_case(w)
+        case = {"kind": "random", "shape": shape, "raw": raw, "ground": grounds, "order": None if w.random() < 0.4 else w.choice(orders()),
+                "labels": labels, "via_ctor": w.random() < 0.5, "heal": w.random() < 0.05, "session": w.random() < 0.5, "related": related,
+                "neighbour": ctx.rng("neighbour", n) if w.random() < 0.1 else None,
+                "lifecycle": ctx.rng("lifecycle", n) if w.random() < 0.15 else None}
+        return judge(ctx, dress(ctx, case, n), w)
     hs = lambda r: G.hostile_string(r, O.n_groups_changing)  # noqa: E731
     shape = G.make_shape(ctx.rng("schema", rng.randrange(600 if ctx.tier == "quick" else 2000)))   # model classes are cached per shape
     hostile_p = rng.choice([0.0, 0.0, 0.3, 0.6])
@@ -498,7 +619,7 @@ def _run_case(ctx, n):
     text = G.write(data_out, st, rng)
     decoy_value = G.gen_instance(rng, shape, 0.0, hs)
     decoy_text = G.write(decoy_value, G.Style(), rng)
-    raw, wr, decoy_grounds = G.wrap(rng, text, decoy_text, decoy_value)
+    raw, wr, decoy_grounds = G.wrap(rng, text, decoy_text, decoy_value, rng2=r4)
     grounds.extend(decoy_grounds)
     labels = list(sem) + list(st.labels) + list(wr)
     if rng.random() < 0.004:
@@ -514,6 +635,7 @@ def _run_case(ctx, n):
             "session": rng.random() < 0.06 and len(raw) < 3000, "related": [text, decoy_text]}
     nrng = ctx.rng("neighbour", n)      # its own stream: the other monitors see the same cases with or without (g)
     case["neighbour"] = nrng if nrng.random() < 0.05 and len(raw) < 3000 else None
+    case["lifecycle"] = ctx.rng("lifecycle", n) if r4.random() < 0.04 and len(raw) < 3000 else None
     return judge(ctx, dress(ctx, case, n), rng)
 
 
@@ -533,6 +655,8 @@ def _desc(case, **kw):
         d["long_history"] = case["long"]
     if case.get("kind") == "neighbour":
         d["neighbour"] = case["neighbour"]
+    if case.get("kind") == "lifecycle":
+        d["lifecycle"] = case["lifecycle"]
     d.update(kw)
     return d
 
@@ -555,6 +679,17 @@ def raw_facts(ctx, raw, S):
     """Independent facts about a raw text: is it, as it stands, schema-valid JSON (and what does it validate to)."""
     try:
         return True, S.model_validate(json.loads(raw))
+    except Exception:
+        return False, None
+
+
+def document_facts(raw, S):
+    """What STRICT is documented to do, done independently: the text (outer white space aside) parsed as ONE JSON document and
+    validated -> (True, instance) / (False, None); (None, None) when the oracle itself runs out of stack or memory."""
+    try:
+        return True, S.model_validate(json.loads(raw.strip()))
+    except (RecursionError, MemoryError):
+        return None, None
     except Exception:
         return False, None
 
@@ -642,6 +777,10 @@ def _judge(ctx, case, rng):
     # ---- several instances in one process, one of them configured
     if case.get("neighbour") is not None:
         neighbour_monitor(ctx, case, case["neighbour"])
+
+    # ---- an instance whose public settings change during its life, that is duplicated, called by keyword, ...
+    if case.get("lifecycle") is not None:
+        lifecycle_monitor(ctx, case, case["lifecycle"])
 
     # ---- evidence
     if strict_valid or enh.valid:
@@ -731,6 +870,38 @@ def assess(ctx, case, S, enh, pl, eff, misfolds, strict_valid, E):
                 if res.valid and ok and not O.same(O.dump(res.structure), O.dump(E)):
                     ctx.violation("strict-valid-values-differ:" + which,
                                   "structure %r differs from model_validate(json.loads(raw)) = %r" % (res.structure, E), _desc(case))
+
+    # ---- (d') the converse: only text that is schema-valid JSON as it stands is folded by STRICT / under a STRICT-only list
+    strict_only = bool(eff) and all(x == FS.STRICT for x in eff)
+    if (enh.valid is True and used == FS.STRICT) or (strict_only and (enh.valid or pl.valid)):
+        doc_valid, D = document_facts(raw, S)
+        if doc_valid is None:
+            ctx.count("document_oracle_unavailable")
+        else:
+            if enh.valid is True and used == FS.STRICT:
+                ctx.count("strict_attributed_folds_checked")
+                if not doc_valid:
+                    ctx.violation("strict-fold-of-non-strict-text", "fold attributed to STRICT (confidence %r) although the text is not schema-valid JSON as it stands: %r" % (
+                        enh.confidence, enh.structure), _desc(case))
+                elif ok_e and not O.same(O.dump(enh.structure), O.dump(D)):
+                    ctx.violation("strict-fold-values-differ", "STRICT fold %r differs from model_validate(json.loads(text)) = %r" % (enh.structure, D), _desc(case))
+            if strict_only:
+                ctx.count("strict_only_lists_checked")
+                for which, res, ok in (("fold_enhanced", enh, ok_e), ("fold", pl, ok_p)):
+                    if res.valid and not doc_valid:
+                        ctx.violation("strict-only-accepts-non-strict-text:" + which, "valid under a STRICT-only list although the text is not schema-valid JSON as it stands: %r" % (
+                            res.structure,), _desc(case))
+                    elif res.valid and ok and not O.same(O.dump(res.structure), O.dump(D)):
+                        ctx.violation("strict-fold-values-differ", "%s under a STRICT-only list gives %r, model_validate(json.loads(text)) = %r" % (which, res.structure, D), _desc(case))
+    if enh.valid is True and used == FS.LENIENT and len(raw) < 4000:
+        try:
+            doc = json.loads(raw.strip())
+        except Exception:
+            doc = None
+        if isinstance(doc, dict) and G.brace_in_string(doc):
+            ctx.count("lenient_valid_document_with_brace_in_string")
+            if enh.coercions_applied:
+                ctx.count("lenient_coerced_document_with_brace_in_string")
 
     # ---- (b) provenance of the valid structures
     if enh.valid and ok_e:
@@ -822,7 +993,7 @@ def _session(ctx, case, rng, rr):
             ctx.count("session_list_edited_from_callback")
         if state["boom"] and state["depth"] == 0:
             ctx.count("session_callback_raised")
-            raise Boom("on_misfold failed")
+            raise _boom(len(misfolds) + len(history), "on_misfold failed")
         if state["reentrant"] and state["depth"] == 0:
             # a fold of another text started from inside the callback of the running one, on the same instance
             state["depth"] += 1
@@ -1030,7 +1201,7 @@ PLAIN_KINDS = ("default", "default", "callback", "explicit-none", "explicit-empt
 
 def _preprocess(kind, text, foreign_text):
     if kind == "raise":
-        raise Boom("co-chaperone failed")
+        raise _boom(len(text), "co-chaperone failed")
     if kind == "replace":
         return foreign_text                      # another, schema-valid JSON text altogether
     if kind == "swapcase":
@@ -1228,6 +1399,433 @@ def neighbour_monitor(ctx, case, rng):
         ctx.count("neighbour_judged_after_removal")
 
 
+# ----------------------------------------------------------------------------- (l) lifecycle of one instance
+class _Recorder:
+    """A module-level callable used as on_misfold (an instance holding it can be copied and pickled). `falsy`: it has a length
+    of 0, so it is false in a boolean context although it is a perfectly good callback."""
+
+    def __init__(self, falsy=False):
+        self.falsy = falsy
+        self.calls = 0
+        self.raising = None
+        self.seen = []
+
+    def __call__(self, e):
+        self.calls += 1
+        self.seen.append(e)
+        del self.seen[:-4]
+        if self.raising is not None:
+            raise _boom(self.raising + self.calls, "on_misfold failed")
+
+    def __len__(self):
+        return 0 if self.falsy else 1
+
+
+def _swapcase_pre(text):
+    return text.swapcase() + " "
+
+
+def _same_pre(text):
+    return text
+
+
+def _pickle_roundtrip(obj):
+    import pickle
+    return pickle.loads(pickle.dumps(obj))
+
+
+SILENT_VALUES = (True, False, 0, 1, None, "", "yes", 0.0)
+LIFE_ACTIONS = ("strategies=", "strategies=", "seal", "widen", "on_misfold=", "on_misfold=", "silent=", "max_retries=", "co_chaperones=",
+                "duplicate", "duplicate", "stats", "map", "mock-heal", "nothing")
+# the public names of the anchored classes this check's workload calls / assigns / reads somewhere
+WORKLOAD_API = {
+    "Chaperone": {"fold", "fold_enhanced", "register_co_chaperone", "get_statistics", "reset_statistics", "strategies", "co_chaperones",
+                  "on_misfold", "silent", "max_retries", "JSON_EXTRACTION_PATTERNS", "JSON_REPAIRS"},
+    "ChaperoneLoop": {"heal", "generator", "chaperone", "schema", "max_retries", "confidence_decay", "silent"},
+    "FoldedProtein": {"map", "valid", "structure", "raw_peptide_chain", "error_trace", "folding_attempts"},
+    "EnhancedFoldedProtein": {"valid", "structure", "raw_peptide_chain", "error_trace", "attempts", "confidence", "coercions_applied", "strategy_used"},
+    "HealingResult": {"outcome", "folded", "attempts", "final_confidence", "ubiquitin_tagged", "valid", "structure"},
+}
+
+
+def lifecycle_monitor(ctx, case, rng):
+    """(l) One Chaperone whose PUBLIC settings are assigned after construction (strategies as a new list / tuple, sealed to
+    STRICT, widened; on_misfold assigned, replaced by a falsy callable, by one that raises, withdrawn; silent / max_retries set to
+    values of other types; co_chaperones replaced by a new dict), that is duplicated (copy / deepcopy / pickle) and used through
+    the duplicate, whose methods are called positionally and by keyword with a list or a tuple, whose results are mapped and
+    deep-copied, and that is handed to a healing loop driven by the library's own mock generator. After every change a fold pair
+    goes through monitors (a)-(d): the obligations follow the CURRENT settings."""
+    import copy
+    from fractions import Fraction
+    from operon_ai.organelles.chaperone import Chaperone, FoldingStrategy as FS
+    from operon_ai.healing.chaperone_loop import ChaperoneLoop, HealingOutcome, create_mock_healing_generator
+    from operon_ai.core.types import FoldedProtein
+    ctx.count("lifecycle_sessions")
+    shape = case["shape"]
+    sib = G.sibling_shape(rng, shape)
+    schemas = [("same", shape, G.build_model(shape)), ("twin", shape, G.build_model(shape, twin=True)),
+               ("hostile-name", shape, G.build_model(shape, twin="hostile-name")), ("sibling", sib, G.build_model(sib))]
+    texts = [case["raw"]] + [t for t in case.get("related", []) if t != case["raw"]][:2]
+    rec = _Recorder(falsy=rng.random() < 0.2)
+    start = rng.choice(["default", "default", "list", "tuple", "sealed", "no-callback"])
+    kw = {"silent": rng.choice(SILENT_VALUES)}
+    if start != "no-callback":
+        kw["on_misfold"] = rec
+    if start in ("list", "tuple"):
+        o = rng.choice(orders())
+        kw["strategies"] = tuple(o) if start == "tuple" else list(o)
+        configured = list(o)
+    elif start == "sealed":
+        kw["strategies"] = [FS.STRICT]
+        configured = [FS.STRICT]
+    else:
+        configured = default_order()
+    ch = _lib(lambda: Chaperone(**kw))
+    rewritten = set()          # schema classes for which a text-changing preprocessor is registered right now: folds run, not judged
+    history = [{"constructed": start}]
+    last = {}
+    _SINK.strict = bool(case.get("strict_sink"))
+
+    for step in range(rng.randint(4, 8)):
+        act = rng.choice(LIFE_ACTIONS)
+        note = act
+        if act == "strategies=":
+            o = rng.choice(orders())
+            ch.strategies = tuple(o) if rng.random() < 0.3 else list(o)
+            configured = list(o)
+            ctx.count("lifecycle_strategies_assigned")
+        elif act == "seal":
+            ch.strategies = [FS.STRICT]
+            configured = [FS.STRICT]
+            ctx.count("lifecycle_sealed_to_strict")
+        elif act == "widen":
+            ch.strategies = list(FS)
+            configured = list(FS)
+            ctx.count("lifecycle_strategies_assigned")
+        elif act == "on_misfold=":
+            how = rng.choice(["new", "falsy", "raising", "withdrawn", "lambda"])
+            note = act + how
+            if how == "withdrawn":
+                ch.on_misfold = None
+            elif how == "lambda":
+                ch.on_misfold = lambda e: None
+            else:
+                rec = _Recorder(falsy=how == "falsy")
+                if how == "raising":
+                    rec.raising = step + len(texts[0])
+                ch.on_misfold = rec
+            ctx.count("lifecycle_on_misfold_assigned:" + how)
+        elif act == "silent=":
+            ch.silent = rng.choice(SILENT_VALUES)
+            ctx.count("lifecycle_silent_assigned")
+        elif act == "max_retries=":
+            ch.max_retries = rng.choice(MAX_RETRIES_ARGS + (Fraction(1, 2), "3"))
+            ctx.count("lifecycle_max_retries_assigned")
+        elif act == "co_chaperones=":
+            how = rng.choice(["empty", "other-class-rewrites", "same-class-identity"])
+            note = act + how
+            if how == "empty":
+                ch.co_chaperones = {}
+                rewritten = set()
+            elif how == "other-class-rewrites":
+                ch.co_chaperones = {schemas[1][2]: _swapcase_pre}
+                rewritten = {schemas[1][2]}
+            else:
+                ch.co_chaperones = {schemas[0][2]: _same_pre}
+                rewritten = set()
+            ctx.count("lifecycle_co_chaperones_assigned")
+        elif act == "duplicate":
+            how = rng.choice(["copy", "deepcopy", "pickle"])
+            note = act + ":" + how
+            try:
+                dup = _lib(lambda: {"copy": copy.copy, "deepcopy": copy.deepcopy, "pickle": _pickle_roundtrip}[how](ch))
+            except Exception:
+                ctx.count("lifecycle_duplicate_unavailable:" + how)        # e.g. a lambda callback / a generated class cannot be pickled
+                dup = None
+            if dup is not None:
+                ctx.count("lifecycle_duplicated:" + how)
+                if rng.random() < 0.3:
+                    # the ORIGINAL is re-configured after the duplicate was taken; the duplicate keeps what it had
+                    ch.strategies = [FS.REPAIR]
+                    ch.on_misfold = None
+                ch = dup
+                if isinstance(getattr(ch, "on_misfold", None), _Recorder):
+                    rec = ch.on_misfold
+        elif act == "stats":
+            try:
+                _lib(lambda: (ch.get_statistics(), ch.reset_statistics() if rng.random() < 0.5 else None, ch.get_statistics(), repr(ch)))
+            except Exception:
+                ctx.count("session_read_raised")
+        elif act == "map" and last:
+            _map_obligations(ctx, case, last, history)
+        elif act == "mock-heal":
+            _mock_heal(ctx, case, rng, ch, configured, schemas, texts, rewritten, history)
+        history.append({"step": step, "action": note})
+
+        # ---- the judged fold pair under the current settings
+        ti = 0 if rng.random() < 0.7 else rng.randrange(len(texts))
+        sname, shp, S = schemas[rng.choice([0, 0, 0, 1, 2, 2, 3])]
+        raw = texts[ti]
+        order = rng.choice(orders()) if rng.random() < 0.35 else None
+        as_tuple = bool(order) and rng.random() < 0.4
+        conv = rng.choice(["positional", "keyword", "mixed"])
+        eff = list(order) if order else list(configured)
+        history.append({"fold": ti, "schema": sname, "order": [x.value for x in order] if order else "configured", "per_call_tuple": as_tuple, "call": conv})
+        sub = {"kind": "lifecycle", "shape": shp, "raw": raw, "ground": case["ground"], "order": order, "labels": case["labels"],
+               "via_ctor": False, "strict_sink": case.get("strict_sink"), "lifecycle": {"texts": texts, "history": list(history)}}
+        raising = isinstance(ch.on_misfold, _Recorder) and ch.on_misfold.raising is not None
+        res = {}
+        for api in (("fold", "fold_enhanced") if rng.random() < 0.5 else ("fold_enhanced", "fold")):
+            fn = getattr(ch, api)
+            arg = (tuple(order) if as_tuple else list(order)) if order else None
+            if conv == "positional":
+                call = (lambda fn=fn, arg=arg: fn(raw, S, arg)) if order else (lambda fn=fn: fn(raw, S))
+            elif conv == "keyword":
+                call = (lambda fn=fn, arg=arg: fn(raw_peptide_chain=raw, target_schema=S, strategies=arg))
+            else:
+                call = (lambda fn=fn, arg=arg: fn(raw, target_schema=S, strategies=arg)) if order else (lambda fn=fn: fn(raw, target_schema=S))
+            res[api], exc = _call(ctx, sub, api, call, hook_may_raise=raising)
+            ctx.count("lifecycle_calls:" + conv)
+            if exc is not None and not _is_boom(exc):
+                return
+        if raising:
+            ch.on_misfold.raising = None         # the hook recovers; later calls on the instance are judged as usual
+            ctx.count("lifecycle_callback_raised_steps")
+        if S in rewritten:
+            ctx.count("lifecycle_folds_through_rewriting_preprocessor")
+            continue
+        pl, enh = res.get("fold"), res.get("fold_enhanced")
+        if pl is None or enh is None:
+            for api, r in (("fold", pl), ("fold_enhanced", enh)):
+                if r is not None and r.valid:       # the callback only runs for a text nothing accepted
+                    ctx.violation("fold-vs-enhanced:validity", "%s reports valid although the other API reported the same text to on_misfold" % api, _desc(sub))
+            continue
+        if rng.random() < 0.3:
+            pl, enh = copy.deepcopy(pl), copy.deepcopy(enh)          # what is judged is a deep copy of what was returned
+            ctx.count("lifecycle_results_deepcopied")
+        mis = list(rec.seen) if isinstance(ch.on_misfold, _Recorder) else []
+        strict_valid, E = raw_facts(ctx, raw, S)
+        assess(ctx, sub, S, enh, pl, eff, [m for m in mis if getattr(m, "raw_peptide_chain", None) == raw], strict_valid, E)
+        ctx.count("lifecycle_judged_folds")
+        if configured == [FS.STRICT] and not order:
+            ctx.count("lifecycle_judged_while_sealed")
+        last = {"pl": pl, "enh": enh, "S": S, "sub": sub}
+        if rng.random() < 0.3:
+            _scribble(res["fold"])
+            _scribble(res["fold_enhanced"])
+            last = {}
+
+
+def _map_obligations(ctx, case, last, history):
+    """FoldedProtein.map: an invalid result maps to itself; a valid one maps through the function (identity here) and stays what it
+    was; a function that raises gives an invalid result without a structure and with an error trace."""
+    from operon_ai.core.types import FoldedProtein
+    pl, S, sub = last["pl"], last["S"], last["sub"]
+    ctx.count("map_calls")
+    try:
+        same = pl.map(lambda x: x)
+        def boom(x):
+            raise _boom(len(history), "mapping function failed")
+        failed = pl.map(boom)
+    except Exception as e:
+        ctx.violation("map-raises:" + type(e).__name__, "FoldedProtein.map raised %s" % (str(e)[:200],), _desc(sub))
+        return
+    if not pl.valid:
+        if same is not pl and (same.valid or same.structure is not None or not same.error_trace):
+            ctx.violation("map-revives-invalid-fold", "map() of an invalid result gives %r" % (same,), _desc(sub))
+        return
+    ctx.count("map_of_valid_result")
+    if not isinstance(same, FoldedProtein) or same.valid is not True or not isinstance(same.structure, S) or not O.same(O.dump(same.structure), O.dump(pl.structure)):
+        ctx.violation("map-identity-changes-result", "map(identity) of %r gives %r" % (pl, same), _desc(sub))
+    if not isinstance(failed, FoldedProtein) or failed.valid or failed.structure is not None or not failed.error_trace:
+        ctx.violation("map-failure-shape", "map(raising function) gives %r" % (failed,), _desc(sub))
+
+
+def _mock_heal(ctx, case, rng, ch, configured, schemas, texts, rewritten, history):
+    """The long-lived instance handed to a healing loop that is driven by the library's own mock generator: junk first, the case's
+    text once the error context arrives. Settings of other types than usual (bool retries, Fraction / int / bool decay, falsy
+    non-bool `silent`); for a second run the loop's public fields (schema, chaperone, generator, silent, decay) are re-assigned.
+    heal() is valid iff a fresh validator configured like the loop's CURRENT one accepts the text; same structure; confidence in
+    [0,1]. With an on_misfold that raises (validator and callback failing in the same call) heal() may let that out: not judged."""
+    from fractions import Fraction
+    from operon_ai.organelles.chaperone import Chaperone, FoldingStrategy as FS
+    from operon_ai.healing.chaperone_loop import ChaperoneLoop, HealingOutcome, create_mock_healing_generator
+    sname, shp, S = schemas[rng.choice([0, 0, 2])]
+    raw = texts[0]
+    junk = rng.choice(JUNK_OUTPUTS)
+    retries = rng.choice([1, 2, 3, True, 5])
+    decay = rng.choice([0.1, Fraction(1, 10), Fraction(1, 3), 0, 1, True, Fraction(3, 2), 0.5])
+    silent = rng.choice(SILENT_VALUES)
+    needle = rng.choice(["invalid", "Error", "schema", "Previous output"])
+    if S in rewritten:
+        return
+    raising = isinstance(ch.on_misfold, _Recorder) and ch.on_misfold.raising is not None
+    try:
+        loop = _lib(lambda: ChaperoneLoop(generator=create_mock_healing_generator(junk, raw, needle), chaperone=ch, schema=S,
+                                          max_retries=retries, confidence_decay=decay, silent=silent))
+    except Exception as e:
+        ctx.violation("heal-raises:" + type(e).__name__, "ChaperoneLoop(...) raised %s" % (str(e)[:200],), _desc(case))
+        return
+    cur = {"chaperone": ch, "configured": list(configured), "schema": S, "text": raw, "junk": junk}
+    for run in range(2):
+        if run:
+            if rng.random() < 0.5:
+                return
+            # the owner re-assigns public fields of its loop between two runs
+            what = rng.choice(["schema", "chaperone", "generator", "silent+decay"])
+            ctx.count("mock_heal_loop_field_reassigned:" + what)
+            if what == "schema":
+                cur["schema"] = loop.schema = schemas[1][2] if schemas[1][2] not in rewritten else S
+            elif what == "chaperone":
+                o = rng.choice(orders())
+                cur["chaperone"] = loop.chaperone = _lib(lambda: Chaperone(strategies=list(o), silent=rng.choice(SILENT_VALUES)))
+                cur["configured"] = list(o)
+                raising = False
+            elif what == "generator":
+                cur["text"], cur["junk"] = texts[-1], rng.choice(JUNK_OUTPUTS)
+                loop.generator = create_mock_healing_generator(cur["junk"], cur["text"], needle)
+            else:
+                loop.silent, loop.confidence_decay = rng.choice(SILENT_VALUES), rng.choice([0.25, Fraction(1, 4), 0, 2])
+        fresh = lambda: _lib(lambda: Chaperone(strategies=list(cur["configured"]), silent=True))  # noqa: E731
+        jref, _ = _call(ctx, dict(case, raw=cur["junk"]), "fold_enhanced", lambda: fresh().fold_enhanced(cur["junk"], cur["schema"]))
+        ref, _ = _call(ctx, dict(case, raw=cur["text"]), "fold_enhanced", lambda: fresh().fold_enhanced(cur["text"], cur["schema"]))
+        if jref is None or ref is None:
+            return                              # a fold raised by itself (reported by _call)
+        if jref.valid:
+            ctx.count("heal_junk_accepted")
+            return
+        d = _desc(case, raw=cur["text"], order=[x.value for x in cur["configured"]], junk_text=cur["junk"], max_retries=loop.max_retries,
+                  decay=repr(loop.confidence_decay), loop_silent=loop.silent, mock_generator_needle=needle, run=run, lifecycle=list(history))
+        ctx.count("mock_heal_runs")
+        try:
+            r = _lib(lambda: loop.heal("p"))
+        except Exception as e:
+            if raising and _is_boom(e):
+                ctx.count("hook_exception_propagated")
+                ctx.count("mock_heal_callback_raised")
+                return
+            ctx.violation("heal-raises:" + type(e).__name__, "heal() raised %s" % (str(e)[:200],), d)
+            return
+        if bool(r.valid) != bool(ref.valid):
+            ctx.violation("heal-vs-fold:validity", "heal() reports %s but fold_enhanced on the healed text is %s" % (r.outcome, "valid" if ref.valid else "invalid"), d)
+            return
+        if not r.valid:
+            ctx.count("heal_degraded")
+            if r.structure is not None or r.folded is not None:
+                ctx.violation("heal-invalid-with-structure", "outcome %s with structure %r" % (r.outcome, r.structure), d)
+            continue
+        ctx.count("mock_heal_valid")
+        if r.outcome != HealingOutcome.HEALED or not isinstance(r.structure, cur["schema"]) or not O.same(O.dump(r.structure), O.dump(ref.structure)):
+            ctx.violation("heal-vs-fold:structure", "heal() gives %s %r, fold_enhanced %r" % (r.outcome, r.structure, ref.structure), d)
+        for name, c in (("final_confidence", r.final_confidence), ("folded.confidence", r.folded.confidence)):
+            ctx.count("heal_confidences_checked")
+            if not isinstance(c, (int, float)) or isinstance(c, bool) or not (0.0 <= c <= 1.0):
+                ctx.violation("heal-confidence-out-of-range", "%s = %r for a valid healed fold" % (name, c), d)
+            elif c == 1.0 and r.folded.strategy_used != FS.STRICT:
+                ctx.violation("heal-confidence-1.0-non-strict", "%s = 1.0 for a %s fold" % (name, r.folded.strategy_used), d)
+
+
+# ----------------------------------------------------------------------------- (m) churn: short-lived texts and schema classes
+def churn(ctx, n, rounds):
+    """(m) Address reuse: every round creates a fresh text of the same length as the previous ones and a fresh (uncached) schema
+    class whose field types alternate, folds the text on two long-lived instances, judges the pair through monitors (a)-(d) and by
+    what the text spells, drops text, class, results and the per-call list, and forces a collection. Anything the library keyed by
+    the identity of a dead object now points at a live, different one."""
+    import gc
+    from pydantic import create_model
+    from operon_ai.organelles.chaperone import Chaperone, FoldingStrategy as FS
+    rng = ctx.rng("churn", n)
+    ctx.count("churn_cases")
+    insts = [(_lib(lambda: Chaperone(silent=True)), default_order()),
+             (_lib(lambda: Chaperone(strategies=[FS.LENIENT, FS.STRICT, FS.REPAIR, FS.EXTRACTION], silent=True)), [FS.LENIENT, FS.STRICT, FS.REPAIR, FS.EXTRACTION])]
+    shapes = {"list": (("name", "str", 0), ("tags", "list_str", 0), ("age", "int", 0)),
+              "str": (("name", "str", 0), ("tags", "str", 0), ("age", "str", 0))}
+    ann = {"list_str": list[str], "str": str, "int": int}
+    for i in range(rounds):
+        k = rng.randrange(10 ** 6)
+        which = "list" if (i + i // 5) % 2 else "str"
+        shape = shapes[which]
+        S = create_model("Rec", **{f[0]: (ann[f[1]], ...) for f in shape})          # short-lived: never cached by the check
+        style = i % 3
+        obj = {"name": "u%06d" % k, "tags": "a%06d, b" % k, "age": "%06d" % k}
+        if style == 0:
+            raw = '{"name": "u%06d", "tags": "a%06d, b", "age": "%06d"}' % (k, k, k)
+        elif style == 1:
+            raw = "{'name': 'u%06d', 'tags': 'a%06d, b', 'age': '%06d'}" % (k, k, k)
+        else:
+            raw = 'x {"name": "u%06d", "tags": "a%06d, b", "age": "%06d"}' % (k, k, k)
+        ch, conf = insts[i % 2]
+        order = [rng.choice(list(FS)) for _ in range(rng.randint(1, 3))] if rng.random() < 0.3 else None
+        eff = list(order) if order else list(conf)
+        case = {"kind": "churn", "shape": shape, "raw": raw, "ground": [obj], "order": order, "labels": ("churn:%s:%d" % (which, style),), "via_ctor": False}
+        enh, _ = _call(ctx, case, "fold_enhanced", (lambda: ch.fold_enhanced(raw, S, order)) if order else (lambda: ch.fold_enhanced(raw, S)))
+        pl, _ = _call(ctx, case, "fold", (lambda: ch.fold(raw, S, order)) if order else (lambda: ch.fold(raw, S)))
+        if enh is None or pl is None:
+            return
+        ctx.count("churn_rounds")
+        strict_valid, E = raw_facts(ctx, raw, S)
+        assess(ctx, case, S, enh, pl, eff, [], strict_valid, E)
+        if enh.valid:
+            ctx.count("churn_valid:" + which)
+            want = {"name": "u%06d" % k, "tags": ["a%06d" % k, "b"] if which == "list" else "a%06d, b" % k, "age": k if which == "list" else "%06d" % k}
+            for api, r in (("fold", pl), ("fold_enhanced", enh)):
+                if r.valid and (not isinstance(r.structure, S) or not O.same(r.structure.model_dump(), want)):
+                    ctx.violation("churn:structure:" + api, "valid structure %r is not what the text spells (%r)" % (r.structure, want), _desc(case))
+        del S, enh, pl, raw, order, case, E
+        if i % 3 == 0:
+            gc.collect()
+            ctx.count("churn_collections")
+
+
+# ----------------------------------------------------------------------------- (n) parent side: interpreter mode, API inventory
+def extra_parent(pctx):
+    """One child interpreter started with -O runs the probe folds (rv/c11_probe.py); its records must equal the ones this
+    interpreter produces and keep the refusal obligations. Plus an inventory of the anchored classes' public names against the
+    names the workload uses (informational)."""
+    import os
+    import subprocess
+    from rv import c11_probe
+    pctx.case = "optimized-mode-probe"
+    here = c11_probe.records()
+    try:
+        p = subprocess.run([sys.executable, "-O", "-B", os.path.abspath(c11_probe.__file__)], capture_output=True, text=True, timeout=420)
+        doc = json.loads([l for l in p.stdout.splitlines() if l.startswith("{")][-1])
+    except Exception as e:
+        pctx.inconclusive("the -O child interpreter gave no result (%s)" % type(e).__name__)
+        doc = None
+    if doc is not None:
+        if doc.get("optimize", 0) < 1 or len(doc["records"]) != len(here):
+            pctx.inconclusive("the -O child interpreter did not run optimized / ran another probe")
+        else:
+            for a, b in zip(here, doc["records"]):
+                pctx.count("optimized_probe_records")
+                w = {"raw": a["raw"], "schema": a["schema"], "order": a["order"], "normal": a, "optimized": b}
+                for api in ("fold_enhanced", "fold"):
+                    r = b[api]
+                    if "raised" in r:
+                        pctx.violation("fold-raises:%s:%s" % (api, r["raised"]), "%s raised %s under python -O" % (api, r["raised"]), w)
+                    elif r["valid"] and not (r.get("instance") and r.get("revalidates")):
+                        pctx.violation("valid-not-instance:" + api, "python -O: valid fold whose structure is not a re-validating instance of the schema", w)
+                    elif not r["valid"] and (r["has_structure"] or not r["has_trace"]):
+                        pctx.violation("invalid-with-structure:" + api if r["has_structure"] else "invalid-without-error-trace:" + api,
+                                       "python -O: invalid fold with structure / without error trace", w)
+                    elif r != a[api]:
+                        pctx.violation("optimized-mode-differs:" + api, "python -O reports %r, the normal interpreter %r" % (r, a[api]), w)
+                pctx.nontrivial(("optimized", a["raw"][:40], a["order"]))
+    # ---- inventory (informational)
+    from operon_ai.organelles.chaperone import Chaperone, EnhancedFoldedProtein
+    from operon_ai.healing.chaperone_loop import ChaperoneLoop, HealingResult
+    from operon_ai.core.types import FoldedProtein
+    import dataclasses
+    for cls in (Chaperone, ChaperoneLoop, FoldedProtein, EnhancedFoldedProtein, HealingResult):
+        names = {x for x in dir(cls) if not x.startswith("_")}
+        if dataclasses.is_dataclass(cls):
+            names |= {f.name for f in dataclasses.fields(cls)}
+        for x in sorted(names):
+            pctx.count("reach:public_api:%s.%s:%s" % (cls.__name__, x, "in_workload" if x in WORKLOAD_API.get(cls.__name__, ()) else "NOT_in_workload"))
+    pctx.case = None
+
+
 JUNK_OUTPUTS = ["not json at all", "", "{", '{"unrelated": 1', "[1, 2", "sorry \u2014 I can\u2019t", "{'k': }",
                 "cut \ud83d", "\x00", "x" * 500 + "{"]
 PROMPTS = ["p", "p", "", "Return the record as JSON. " * 40, "emoji cut \ud83d", "\x00"]
@@ -1392,7 +1990,7 @@ def _heal_rig(ctx, case, rng, raw, S, order, chaperone=None):
         rig["calls"].append(error_context)
         if rig["boom_at"] is not None and i == rig["boom_at"]:
             ctx.count("heal_generator_raised")
-            raise Boom("generator failed")
+            raise _boom(i + len(rig["raw"]), "generator failed")
         outs = rig["outs"]
         return outs[i] if i < len(outs) else outs[-1]
 
@@ -1460,8 +2058,11 @@ def _heal_once(ctx, case, rng, rig):
     rig["outs"] = [junk_text] * junk + [raw]
     prompt = rng.choice(PROMPTS)
     fresh = lambda: _lib(lambda: Chaperone(strategies=list(rig["eff"]), silent=True))  # noqa: E731
-    ref = _lib(lambda: fresh().fold_enhanced(raw, S))         # what a fresh, equally configured validator says about the text
-    junk_ok = _lib(lambda: fresh().fold_enhanced(junk_text, S)).valid if junk else False     # a repairable junk text would end the loop early
+    ref, _ = _call(ctx, case, "fold_enhanced", lambda: fresh().fold_enhanced(raw, S))         # what a fresh, equally configured validator says about the text
+    jref = _call(ctx, dict(case, raw=junk_text), "fold_enhanced", lambda: fresh().fold_enhanced(junk_text, S))[0] if junk else False
+    if ref is None or jref is None:
+        return                                  # a fold raised by itself (reported by _call)
+    junk_ok = jref.valid if junk else False     # a repairable junk text would end the loop early
     d = _desc(case, raw=raw, order=[x.value for x in rig["eff"]], junk=junk, junk_text=junk_text, max_retries=max_retries, decay=decay,
               loop_silent=rig["silent"], shared_chaperone=rig["shared_chaperone"])
     if rng.random() < 0.08:
